@@ -309,6 +309,20 @@ func $NC(a int) (res int) {
 	}
 	return
 }`, entries: []*Entry{callEntry("$NC", 1, nil)}},
+	{name: "explicitly-instantiated-api", decls: baseGen + `
+$GEN{$NW(a int)}{int}{
+	$YIELDT{int}{a}
+	$YFROMT{int}{$NG(a + 1)}
+	$YIELDT{int}{-a}
+	$RET
+}
+
+func $NC(a int) (res int) {
+	for v := range $RANGE{$NW(a)} {
+		res = res*3 + v
+	}
+	return
+}`, entries: []*Entry{callEntry("$NC", 1, nil), drive("$NW", "int", 1, nil)}},
 	{name: "method-generators", decls: `
 type $NT struct{ Base int }
 
@@ -639,6 +653,7 @@ type injection struct {
 // host generator: Yield(a); <injected>; Yield(a+1)
 var injections = []injection{
 	{name: "goto-label", stmt: "i := 0\nagain:\n\ttr.Ev(1, i)\n\ti++\n\tif i < 2 {\n\t\tgoto again\n\t}"},
+	{name: "goto-before-its-label", stmt: "if a >= 0 {\n\t\ttr.Ev(1)\n\t}\n\tgoto done\ndone:\n\ttr.Ev(2)"},
 	{name: "labelled-continue", stmt: "outer:\n\tfor i := 0; i < 2; i++ {\n\t\tfor j := 0; j < 2; j++ {\n\t\t\tif j == 1 {\n\t\t\t\tcontinue outer\n\t\t\t}\n\t\t\t$YIELD{i*10 + j}\n\t\t}\n\t}"},
 	{name: "labelled-break", stmt: "outer:\n\tfor i := 0; i < 2; i++ {\n\t\tfor j := 0; j < 2; j++ {\n\t\t\t$YIELD{i*10 + j}\n\t\t\tif j == 0 {\n\t\t\t\tbreak outer\n\t\t\t}\n\t\t}\n\t}"},
 	{name: "labelled-break-trivial", stmt: "outer:\n\tfor i := 0; i < 2; i++ {\n\t\tfor j := 0; j < 2; j++ {\n\t\t\ttr.Ev(1, i, j)\n\t\t\tif j == 0 {\n\t\t\t\tbreak outer\n\t\t\t}\n\t\t}\n\t}"},
